@@ -6,6 +6,7 @@ kernels are decoded again and the configured PE is evaluated by an independent P
 from __future__ import annotations
 
 import itertools
+import os
 import struct
 
 from .. import compat
@@ -34,7 +35,7 @@ def _f32(x):
 FOPS = {"addf": lambda x, y: _f32(x + y), "subf": lambda x, y: _f32(x - y), "mulf": lambda x, y: _f32(x * y)}
 
 
-def gen_kernel(rng, ops, nin):
+def gen_kernel(rng, ops, nin, dead=False):
     ins = [f"%a{i}" for i in range(nin)]
     for _ in range(200):
         n = rng.randint(1, 3)
@@ -49,8 +50,8 @@ def gen_kernel(rng, ops, nin):
             used |= {x, y}
         if not set(ins) <= used:
             continue
-        if any(not any(f"%v{k}" in (b[1], b[2]) for b in body[k + 1 :]) for k in range(n - 1)):
-            continue
+        if not dead and any(not any(f"%v{k}" in (b[1], b[2]) for b in body[k + 1 :]) for k in range(n - 1)):
+            continue  # (dead: operations whose result nobody reads are allowed, they may even be the only reader of an input)
         return body
     return [[ops[0], ins[0], ins[1], "%v0"]] + ([[ops[0], "%v0", ins[2], "%v1"]] if nin == 3 else [])
 
@@ -61,7 +62,8 @@ def gen_case(rng, tier):
     if rng.random() < 0.3:
         ops = ops[:2]
     nin = rng.choice([2, 2, 3])
-    kernels = [gen_kernel(rng, ops, nin) for _ in range(rng.randint(1, 5))]
+    dead = rng.random() < 0.2  # kernels may contain operations whose result is not used
+    kernels = [gen_kernel(rng, ops, nin, dead and rng.random() < 0.5) for _ in range(rng.randint(1, 5))]
     pts = [[rng.randrange(1, 1000) for _ in range(nin)] for _ in range(6)]
     return {"float": flt, "nin": nin, "kernels": kernels, "points": pts}
 
@@ -146,9 +148,9 @@ def execute(case):
     nin, flt = case["nin"], case["float"]
     for k in case["kernels"]:
         used = {x for b in k for x in (b[1], b[2])}
-        if not {f"%a{i}" for i in range(nin)} <= used or any(b[3] not in used for b in k[:-1]):
+        if not {f"%a{i}" for i in range(nin)} <= used:
             out["status"] = "rejected"
-            out["rejected"] = "workload:kernel-with-unused-input-or-dead-op"
+            out["rejected"] = "workload:kernel-with-unused-input"
             return out
     grid = list(itertools.product([0, 1, 2, 3, 5, 7], repeat=nin)) if nin == 2 else list(itertools.product([0, 1, 3, 6], repeat=3))
     points = [tuple(float(v) for v in p) if flt else tuple(p) for p in (grid + [tuple(p) for p in case["points"]])]
@@ -167,6 +169,18 @@ def execute(case):
             # a rejected merge changes nothing the property speaks about; the abstract PE may be half-modified: stop here
             out["probes"]["merge-rejected:" + type(e).__name__] = 1
             break
+        except Exception as e:
+            # not a refusal: the merge API itself breaks down on a history from the quantified domain (every such history is
+            # "merged in any order, each then decoded"), so the switch values the statement promises cannot be obtained at all.
+            # Only when the exception comes out of the subject's code - anything else is a harness error.
+            import traceback
+
+            frames = traceback.extract_tb(e.__traceback__)
+            if frames and os.path.abspath(frames[-1].filename).startswith(os.path.abspath(compat.REPO) + os.sep):
+                where = f"{os.path.relpath(frames[-1].filename, compat.REPO)}:{frames[-1].name}"
+                out.update(status="violation", oracle="merge-crash", message=f"merging kernel {step} into the element raises {type(e).__name__} in {where}: {str(e)[:120]}")
+                return out
+            raise
         merged.append(kbody)
         out["probes"]["merges"] = out["probes"].get("merges", 0) + 1
         for j, kb in enumerate(merged):
